@@ -40,6 +40,8 @@ LATTICES = {
     "hexagonal": rnp.array([[1.0, 0, 0], [-0.5, 0.8660254037844386, 0], [0, 0, 1.7]]) * 2 * rnp.pi,
     "triclinic": rnp.array([[1.0, 0.1, 0.0], [0.2, 1.3, 0.1], [0.05, 0.3, 0.9]]),
     "monoclinic": rnp.array([[1.0, 0, 0], [0, 1.2, 0], [0.3, 0, 1.4]]),
+    # almost cubic (rhombohedral, cos(alpha) = 3e-4): the first shell alone misses the completeness relation by 7e-4 -- more than the 1e-5 the code allows
+    "nearly cubic rhombohedral": (lambda c: rnp.linalg.cholesky(rnp.array([[1, c, c], [c, 1, c], [c, c, 1.0]])).T * 1.7)(3e-4),
 }
 
 
